@@ -620,7 +620,12 @@ def c12_monitor(ctx, tr, ix):
             if oid_ not in cur:
                 liquidated_ = (not a_["holdings"]) and a_["total_cash"] == 0        # forced liquidation wipes the account, receivables included (by design)
                 if now8 < pay8 and amt and not liquidated_:
-                    ctx.witness("C12.2", {"kind": "receivable_vanished"}, "%s: the dividend receivable %r of %s (payable %s, booked by %s) is gone at %s (%s) before its payable date"
+                    # the position has ONE receivable slot (finding F21): another dividend of the stock whose record date falls before this payable date overwrites it —
+                    # also when the holding has been sold out in between (the overwrite is then with 0)
+                    rows_ = S["div"].get(oid_, [])
+                    mine_ = [r_ for r_ in rows_ if r_[3] == pay8]
+                    overl_ = any(r_[3] != pay8 and mine_ and mine_[0][1] <= r_[1] < pay8 for r_ in rows_)
+                    ctx.witness("C12.2", dict({"kind": "receivable_vanished"}, **({"overlapping_dividend": True} if overl_ else {})), "%s: the dividend receivable %r of %s (payable %s, booked by %s) is gone at %s (%s) before its payable date"
                                 % (when, amt, oid_, pay8, seen_at, when, kind), rp)
                 del recv[oid_]
         for oid_, d_ in cur.items():
@@ -655,7 +660,13 @@ def c12_monitor(ctx, tr, ix):
             for nop in mine_nested:
                 if nop["op"] == "apply_trade" and nop["args"].get("order") is None and nop["args"]["side"] == "BUY" and nop["args"]["id"] in ix.stock:
                     pb_ = ix.bar(nop["args"]["id"], prev8)
-                    if pb_ is not None and today8 != prev8:
+                    # a share conversion INTO this stock at yesterday's settlement re-marked the whole holding at the predecessor's last price / ratio: this morning's mark is then
+                    # the predecessor's datum, not this stock's close (the stream does not make the two agree on every path) — not judged here
+                    conv_ = any(t_["successor"] == nop["args"]["id"] and ix.stock.get(p_) is not None and ix.stock[p_]["delisted"] is not None
+                                and ix.next_day8(prev8) >= B.d8(ix.stock[p_]["delisted"]) for p_, t_ in S["trf"].items())
+                    if conv_:
+                        ctx.stats["c12_reinvestment_after_conversion_not_judged"] += 1
+                    if pb_ is not None and today8 != prev8 and not conv_:
                         dps_ = sum(r[4] / r[5] for r in S["div"].get(nop["args"]["id"], []) if r[1] == prev8)
                         ctx.stats["c12_reinvestment_prices_checked"] += 1
                         if not near(nop["args"]["price"], pb_[2] - dps_, 1e-9):
